@@ -422,7 +422,7 @@ func (h *c08) resultsPoints(nMed, nBig int) {
 		for cond := 0; cond <= 1; cond++ {
 			h.run("internal.SM2Point.Select", fmt.Sprint(cond), i > 1, []string{vZeroPoint, vPoint(p), vPoint(q), fmt.Sprint(cond)}, two(sm2.VerifNewPoint().Select(p, q, cond)))
 		}
-		if h.quick && i >= 5 {
+		if h.quick && i >= 4 {
 			continue
 		}
 		// coordinate extraction: safe and unsafe variants agree with the implementation
@@ -622,7 +622,7 @@ func (h *c08) tracePairs(nSmall, nMed, nBig int) {
 			h.pair(f.el+".Equal", "canon", []string{vElem(a1), vElem(b1)}, []string{vElem(a2), vElem(b2)}, "")
 			h.pair(f.pfx+"ToBytes", "canon", []string{vBytes(make([]byte, 32)), vLimbs(a1)}, []string{vBytes(make([]byte, 32)), vLimbs(a2)}, "")
 			h.pair(f.pfx+"FromBytes", "canon", []string{z4, vBytes(h.secretBytes(32, i))}, []string{z4, vBytes(h.secretBytes(32, i+1))}, "")
-			if i < 2 {
+			if i < 1 {
 				var one, zero [4]uint64
 				one[0] = 1
 				h.pair(f.el+".Invert", "canon", []string{ze, vElem(a1)}, []string{ze, vElem(a2)}, "")
@@ -660,7 +660,7 @@ func (h *c08) tracePairs(nSmall, nMed, nBig int) {
 		h.pair("internal.SM2Point.Negate", "generic", []string{vZeroPoint, vPoint(p1)}, []string{vZeroPoint, vPoint(p2)}, "")
 		h.pair("internal.SM2Point.Set", "generic", []string{vZeroPoint, vPoint(p1)}, []string{vZeroPoint, vPoint(p2)}, "")
 		h.pair("internal.SM2Point.Select", "generic", []string{vZeroPoint, vPoint(p1), vPoint(q1), "0"}, []string{vZeroPoint, vPoint(p2), vPoint(q2), "1"}, "")
-		if i < 2 {
+		if i < 1 {
 			h.pair("internal.SM2Point.GetAffineX", "finite", []string{vPoint(p1)}, []string{vPoint(p2)}, "")
 			h.pair("internal.SM2Point.Bytes", "finite", []string{vPoint(p1)}, []string{vPoint(p2)}, "")
 		}
@@ -679,7 +679,10 @@ func (h *c08) tracePairs(nSmall, nMed, nBig int) {
 	P1, P2 := h.randPoint(1), h.randPoint(2)
 	for i := 0; i < nBig; i++ {
 		k1, k2 := ks[i], ks[len(ks)-1-i]
-		if i > 0 { // the cost is proportional to the length: one pair of 32-byte scalars, the others short
+		if i == 0 && h.quick { // quick tier: 12-byte scalars (the 32-byte case is compared functionally above)
+			k1, k2 = h.secretBytes(12, 1), h.secretBytes(12, 0)
+		}
+		if i > 0 { // the cost is proportional to the length: one pair of long scalars, the others short
 			l := 1 + i%3
 			k1, k2 = h.secretBytes(l, i+2), h.secretBytes(l, i)
 		}
